@@ -478,7 +478,10 @@ class VizierServicer(vizier_service_pb2_grpc.VizierServiceServicer):
                   suggest_decision.metadata.on_trials
               ),
           )
-      except KeyError as e:
+      # Whatever makes the algorithm's metadata unstorable (an unknown trial id,
+      # an id that is no trial id at all) must not leave the operation
+      # unfinished.
+      except Exception as e:  # pylint: disable=broad-except
         output_op.error.CopyFrom(
             status_pb2.Status(
                 code=code_pb2.Code.INTERNAL, message=_status_message(e)
